@@ -25,7 +25,7 @@ LEVEL_TEXT = ("Analytic polar-stereographic grids (random pole, rotation, resolu
 LEVEL_NOTE = "Position error bound = 1.5*sqrt(tol)/sigma_min(J) with tol = 1e-7 (bilin_inv's stopping rule), J = local Jacobian in degrees per cell; trusts numpy/netCDF4 and the closed-form projection in the harness."
 RULE = ("cases: sample2d chunks (random fields/masks/positions/substitutes), roundtrip (one grid x subgrid x 2000 positions), e2e (lon/lat release + lon/lat output, sparse and dense). "
         "Non-trivial: positions within one cell of the rim of the valid region are present / masked or outside points present; distinct by grid parameters.")
-MANDATORY = ["e2e_release_rows_sharing_a_longitude_or_a_latitude", "xy2ll_positions_in_cells_with_a_land_corner", "e2e_lonlat_output_in_cells_with_a_land_corner", "e2e_grid_module_ROMS2_lonlat_release", "e2e_lonlat_stored_packed", "positions_within_1e-9_of_a_masked_edge", "grid_longer_than_700_cells", "e2e_inactive_particles", "e2e_split_output_files", "post_sample2D", "roundtrip_positions", "longitudes_beyond_180", "rim_positions", "subgrid", "outside_value_zero", "outside_value_nan", "masked_corner",
+MANDATORY = ["pole_a_few_cells_outside_the_domain", "e2e_release_rows_sharing_a_longitude_or_a_latitude", "xy2ll_positions_in_cells_with_a_land_corner", "e2e_lonlat_output_in_cells_with_a_land_corner", "e2e_grid_module_ROMS2_lonlat_release", "e2e_lonlat_stored_packed", "positions_within_1e-9_of_a_masked_edge", "grid_longer_than_700_cells", "e2e_inactive_particles", "e2e_split_output_files", "post_sample2D", "roundtrip_positions", "longitudes_beyond_180", "rim_positions", "subgrid", "outside_value_zero", "outside_value_nan", "masked_corner",
              "all_masked", "outside_raises", "e2e_lonlat_release", "e2e_lonlat_output", "exact_bilinear_field", "fine_grid_below_250m", "e2e_fine_grid_below_250m"]
 ASSUMPTIONS = ["grids are conformal and smooth (polar stereographic) as the property quantifies; the branch cut of longitude is kept outside the grid"]
 TIMEOUT = {"quick": 600, "thorough": 3000}
@@ -222,6 +222,12 @@ def _case_roundtrip(case, R, wd, V, sit, cnt, keys):
             imax, jmax = jmax, imax
         _bump(sit, "grid_longer_than_700_cells")
     pol = polar_spec(rng, imax, jmax, fine=case["idx"] % 4 == 0)
+    pole_near = bool(case["idx"] % 16 == 9)
+    if pole_near:
+        # a coarse pan-Arctic grid with the pole a few cells outside the domain: longitude turns quickly from cell to cell near that edge
+        imax, jmax = int(rng.integers(160, 241)), int(rng.integers(120, 201))
+        pol = dict(kind="polar", xp=float(imax * rng.uniform(0.3, 0.7)), yp=float(jmax + rng.uniform(2.5, 6.0)), dx=20000.0, ylon=float(rng.uniform(-60, 60)))
+        _bump(sit, "pole_a_few_cells_outside_the_domain")
     if pol["dx"] <= 250.0:
         _bump(sit, "fine_grid_below_250m")
     spec = dict(imax=imax, jmax=jmax, N=2, t0=C.T0, frames=[0, 3600], files=[2], vel=dict(kind="zero"),
@@ -266,7 +272,7 @@ def _case_roundtrip(case, R, wd, V, sit, cnt, keys):
         return
     # against the closed-form projection: bilinear interpolation error of a smooth map is tiny but not zero
     tlon, tlat = W.polar_lonlat(X, Y, pol)
-    if not (np.max(np.abs(lon - tlon)) <= 2e-2) or not (np.max(np.abs(lat - tlat)) <= 2e-2):
+    if not pole_near and (not (np.max(np.abs(lon - tlon)) <= 2e-2) or not (np.max(np.abs(lat - tlat)) <= 2e-2)):
         V.append(C.viol(f"xy2ll is not the grid's lon/lat at the position (max deviation {np.max(np.abs(lon - tlon)):.3g}, {np.max(np.abs(lat - tlat)):.3g} deg)", **desc))
     with Dataset(w["gridfile"]) as nc_:
         LON_, LAT_ = np.array(nc_.variables["lon_rho"][:], float), np.array(nc_.variables["lat_rho"][:], float)
